@@ -6,6 +6,7 @@ import (
 	"go/token"
 	"go/types"
 	"sort"
+	"strings"
 
 	"golang.org/x/tools/go/ssa"
 )
@@ -100,8 +101,9 @@ type Task struct {
 	id     int
 	fn     Closure
 	args   []Value
-	reads  map[string]bool
+	reads  map[string]bool // "location\x00lockset"
 	writes map[string]bool
+	held   map[string]int
 	done   bool
 }
 
@@ -132,11 +134,82 @@ func (m *M) recordAccess(p Ptr, write bool) {
 		return
 	}
 	t := s.cur
+	k := locKey(p) + "\x00" + t.lockset()
 	if write {
-		t.writes[locKey(p)] = true
+		t.writes[k] = true
 	} else {
-		t.reads[locKey(p)] = true
+		t.reads[k] = true
 	}
+}
+
+// lockset: the mutexes the task holds right now, "X<key>" exclusively or "S<key>" shared, sorted, ';'-separated.
+func (t *Task) lockset() string {
+	if len(t.held) == 0 {
+		return ""
+	}
+	var ks []string
+	for k, n := range t.held {
+		if n > 0 {
+			ks = append(ks, k)
+		}
+	}
+	sort.Strings(ks)
+	return strings.Join(ks, ";")
+}
+
+func (m *M) lockOp(p Ptr, shared bool, delta int) {
+	s := m.sched
+	if s == nil || p.obj == nil {
+		return
+	}
+	t := s.cur
+	if t.held == nil {
+		t.held = map[string]int{}
+	}
+	k := "X"
+	if shared {
+		k = "S"
+	}
+	id := fmt.Sprintf("%d%v", p.obj.id, p.path)
+	if delta > 0 {
+		// a goroutine that blocks while holding a mutex would make another one wait here: not modelled
+		for _, o := range s.all {
+			if o != t && (o.held["X"+id] > 0 || (!shared && o.held["S"+id] > 0)) {
+				panic(engineErr("mutex acquired while another goroutine holds it across a blocking point (not modelled)"))
+			}
+		}
+	}
+	k += id
+	t.held[k] += delta
+	if t.held[k] < 0 {
+		panic(goPanic{msg: "sync: unlock of unlocked mutex"})
+	}
+}
+
+// protected: do two accesses made under these locksets exclude each other (a common mutex, not both shared)?
+func protected(la, lb string) bool {
+	if la == "" || lb == "" {
+		return false
+	}
+	hb := map[string]bool{}
+	for _, k := range strings.Split(lb, ";") {
+		hb[k] = true
+	}
+	for _, k := range strings.Split(la, ";") {
+		key := k[1:]
+		if k[0] == 'X' && (hb["X"+key] || hb["S"+key]) {
+			return true
+		}
+		if k[0] == 'S' && hb["X"+key] {
+			return true
+		}
+	}
+	return false
+}
+
+func splitAccess(k string) (loc, locks string) {
+	i := strings.IndexByte(k, 0)
+	return k[:i], k[i+1:]
 }
 
 func (s *Sched) wg(p Ptr) *WG {
@@ -213,16 +286,20 @@ func (m *M) checkRaces() []string {
 			if i >= j {
 				continue
 			}
-			for l := range a.writes {
-				if b.writes[l] || b.reads[l] {
-					out = append(out, fmt.Sprintf("goroutine%d/goroutine%d on %s", a.id, b.id, l))
+			conflict := func(x, y map[string]bool) {
+				for kx := range x {
+					lx, hx := splitAccess(kx)
+					for ky := range y {
+						ly, hy := splitAccess(ky)
+						if lx == ly && !protected(hx, hy) {
+							out = append(out, fmt.Sprintf("goroutine%d/goroutine%d on %s", a.id, b.id, lx))
+						}
+					}
 				}
 			}
-			for l := range b.writes {
-				if a.reads[l] {
-					out = append(out, fmt.Sprintf("goroutine%d/goroutine%d on %s", a.id, b.id, l))
-				}
-			}
+			conflict(a.writes, b.writes)
+			conflict(a.writes, b.reads)
+			conflict(b.writes, a.reads)
 		}
 	}
 	sort.Strings(out)
